@@ -166,6 +166,18 @@ XMC_TEST(self_accessor_calls, "three calls of an outlined accessor are not a spi
   spawn([a] { a->store(1, std::memory_order_relaxed); });
   join_all();
 }
+// compare_exchange_weak may fail spuriously (explored only with --s > 0): a single-shot weak CAS whose failure is
+// taken as "somebody else has done it" is wrong even single-threaded
+XMC_TEST(self_weak_cas_single_shot, "single-shot compare_exchange_weak: failure does not imply interference (needs --s 1)") {
+  auto* x = new std::atomic<int>(0);
+  spawn([x] {
+    int e = 0;
+    if (!x->compare_exchange_weak(e, 1, std::memory_order_acq_rel, std::memory_order_acquire)) {
+      if (x->load(std::memory_order_acquire) != 1) fail("ORACLE", "weak CAS failed but nobody else has set the value");
+    }
+  });
+  join_all();
+}
 XMC_TEST(self_choose, "DATA choices are enumerated: 3x3 grid, violation only at (2,1)") {
   int a = choose(3), b = choose(3);
   if (a == 2 && b == 1 && opt("plant", 0)) fail("ORACLE", "found planted (2,1)");
